@@ -95,7 +95,10 @@ func c19schedItems(c *Ctx) []Item {
 	reg2 := regOp{"Registry", c19Name2, "service"}
 	get2 := regOp{"Get", c19Name2, ""}
 	rem2 := regOp{"Remove", c19Name2, ""}
-	tuples2 := [][]regOp{{rem, reg2}, {reg, reg2}, {rem, get2}, {reg, rem2}, {rem, reg2, get2}, {reg, rem, reg2}}
+	tuples2 := [][]regOp{{rem, reg2}, {reg, reg2}, {rem, get2}, {reg, rem2}, {rem, reg2, get2}, {reg, rem, reg2},
+		// Clear must empty the registry in one step: a look-up that misses one name and a later look-up that still
+		// finds another cannot both be explained
+		{clr, get, get2}}
 	var items []Item
 	for _, tp := range tuples {
 		tp := tp
